@@ -5,6 +5,7 @@ import RbpfModel.Model.WellFormed
 import RbpfModel.Model.Interp
 import RbpfModel.Model.Isa
 import RbpfModel.Model.Taint
+import RbpfModel.Model.EngineSem
 namespace Rbpf.Drive
 open Rbpf.Hex
 
@@ -99,10 +100,12 @@ def errName : ErrKind → String
   | .callType => "call-type" | .tailCall => "tail-call"
 
 def mkEnv (c : ExecCase) (prog : Bytes) : Env :=
+  -- `Interp.stackUsage prog calc`, with the key list computed once per case rather than once per step
+  let entries := Interp.stackEntries prog
   { prog := prog
     helpers := fun k => (c.helpers.find? (·.1 == k)).map (fun e => mix (e.2 % 4))
     allowed := c.arange.map fun (i, lo, hi) => (wrap64 (c.extrabase.getD i 0) lo, wrap64 (c.extrabase.getD i 0) hi)
-    usage := Interp.stackUsage prog (c.calcT.map fun t => fun pc => t.getD (pc % t.size) 0) }
+    usage := Interp.usageOf entries (c.calcT.map fun t => fun pc => t.getD (pc % t.size) 0) }
 
 /-- `LittleEndian::write_u64(&mut buf[off..], v)` -/
 def writeU64 (buf : Bytes) (off v : Nat) : Bytes :=
@@ -152,7 +155,26 @@ def handleExec (toks : List String) : String :=
         let tags := (if f7 then ["f7"] else []) ++ (if t.f16 then ["f16"] else []) ++ (if t.calls > 0 then ["localcall"] else []) ++
                     (if t.helperCalls > 0 then ["helper"] else [])
         let claim := match r with | .done _ _ => (if t.inClaim then "in" else "out") | _ => "out"
-        render r ++ " | claim=" ++ claim ++ (if tags.isEmpty then "" else " | tags=" ++ ",".intercalate tags)
+        -- what the generated code is modelled to compute (EngineSem), in the harness' engine format
+        let eng (comp : EngineSem.Compile) (res : Unit → Interp.Result) : String :=
+          match comp with
+          | .err => "compile-err"
+          | .panic => "compile-panic"
+          | .ok => match r with
+            | .done _ _ => (match res () with
+              | .done r0 s =>
+                let d := detail c s
+                -- " mem=A mbuff=B extra=C log=N:D"  ->  "ok:r0=..:mem=A:mbuff=B:LOG=N:D"
+                let parts := (d.trimAscii.toString.splitOn " ").filter (· ≠ "")
+                let get (k : String) : String := ((parts.find? (·.startsWith (k ++ "="))).map (fun x => (x.drop (k.length + 1)).toString)).getD ""
+                s!"ok:r0={bvHex r0}:mem={get "mem"}:mbuff={get "mbuff"}:LOG={get "log"}"
+              | .err _ _ => "trap"
+              | .panic => "panic" | .fault => "fault" | .timeout _ => "timeout")
+            | _ => "compiled"
+        let m0 := Interp.init (mkMem c)
+        render r ++ " | claim=" ++ claim ++ (if tags.isEmpty then "" else " | tags=" ++ ",".intercalate tags) ++
+          " | jitsem=" ++ eng (EngineSem.jitCompile env) (fun _ => EngineSem.jitRun env m0 c.budget) ++
+          " | clifsem=" ++ eng (EngineSem.clifCompile env) (fun _ => EngineSem.clifRun env m0 c.budget)
       else
       let m := render (Interp.run env (Interp.init (mkMem c)) c.budget)
       if (look (kvOf toks) "spec") == some "isa" then
